@@ -3,6 +3,7 @@ package drivers
 
 import (
 	_ "verif/mc/drivers/c01"
+	_ "verif/mc/drivers/c02"
 	_ "verif/mc/drivers/c04"
 	_ "verif/mc/drivers/c05"
 	_ "verif/mc/drivers/c06"
